@@ -446,6 +446,9 @@ pub fn run(cfg: &Cfg, rep: &mut Rep) {
     let mut r = Rng::new(cfg.seed, 0x1900 + sh as u64);
     let mut i = 0usize;
     for (si, s) in SCALES.iter().enumerate() {
+        if cfg.fuzz {
+            break;
+        }
         for &c in &lats[si] {
             i += 1;
             if i % n != sh {
@@ -469,6 +472,7 @@ pub fn run(cfg: &Cfg, rep: &mut Rep) {
     }
     let nrand = cfg.budget(300_000);
     for k in 0..nrand {
+        let k = cfg.k(k, &mut r);
         let si = if k % 2 == 0 { 4 } else { r.below(9) as usize };
         let s = SCALES[si];
         let full = s == TimeScale::UTC && r.chance(2, 3);
